@@ -211,7 +211,7 @@ D2Frob(pa, pb)   == RNorm(IntFrob(XSub(IScale(pb.den, pa.num), IScale(pa.den, pb
 
 ChordRec(id) ==
     LET sh == ShapeOf(id)  m == sh[1]  n == sh[2]
-        s  == Stream(id, 4 * m * n + 2 * n * n + m + 6)
+        s  == Stream(id, 4 * m * n + 2 * n * n + 3 * m + 6)
         real == Pick(s[Len(s)], 4) = 0
         A  == GMat(s, 0, m, n, 1, real)
         B  == GMat(s, 2 * m * n, m, n, 1, real)
@@ -224,8 +224,18 @@ ChordRec(id) ==
                  UA == SPerm(u.perm, u.ph, A)
                  UB == SPerm(u.perm, u.ph, B)
                  pt == ProjND(AT)
+                 \* a dense common rotation: the Householder reflection I - 2 v v^H / nu is unitary with
+                 \* rational entries; R = nu I - 2 v v^H is nu times it and R A spans the rotated subspace
+                 v0 == GMat(s, 4 * m * n + 2 * n * n + m + 2, m, 1, 1, real)
+                 v  == IF Nnz(v0) < 2 THEN Fix([i \in 1..m |-> <<GOne>>]) ELSE v0
+                 nu == IntFrob(v)
+                 Rh == XSub(IDiag(m, nu), IScale(2, XMul(v, XHerm(v))))
+                 dAB == MDet(XMul(XHerm(A), B))
              IN [valid |-> TRUE, kind |-> "chord", id |-> id, n |-> n, A |-> A, B |-> B, T |-> T,
-                 AT |-> AT, UA |-> UA, UB |-> UB,
+                 AT |-> AT, UA |-> UA, UB |-> UB, HA |-> XMul(Rh, A), HB |-> XMul(Rh, B), Rh |-> Rh, hnu |-> nu,
+                 \* product of the squared cosines of the principal angles = |det(A^H B)|^2 / (det A^H A det B^H B)
+                 cos2prod |-> RNorm(GAbs2(dAB)[1], pa.den * pb.den),
+                 cos2sum |-> RSub(R(n), D2Frob(pa, pb)),
                  d2 |-> D2Frob(pa, pb),                         \* the definition
                  d2tr |-> D2Trace(pa, pb, n),                   \* principal-angle form
                  d2ba |-> D2Frob(pb, pa),
@@ -244,6 +254,11 @@ ChordSymmetric       == IsChord => kase.d2ba = kase.d2
 ChordZeroOnEqual     == IsChord => kase.sameP /\ kase.d2eq = RZero
 ChordBasisInvariant  == IsChord => kase.d2atb = kase.d2
 ChordUnitaryInvariant == IsChord => kase.d2u = kase.d2
+ChordHouseholderIsUnitary == IsChord => /\ kase.Rh = XHerm(kase.Rh)
+                                        /\ XMul(kase.Rh, kase.Rh) = IDiag(MRows(kase.A), kase.hnu * kase.hnu)
+ChordAngles          == IsChord => /\ RLe(RZero, kase.cos2prod) /\ RLe(kase.cos2prod, ROne)
+                                   /\ (kase.n = 1 => kase.cos2prod = kase.cos2sum)
+                                   /\ (kase.d2 = RZero => kase.cos2prod = ROne)
 ChordRange           == IsChord => RLe(RZero, kase.d2)
                                    /\ RLe(kase.d2, R(Min(kase.n, MRows(kase.A) - kase.n)))
 
@@ -386,6 +401,13 @@ EigProjectorIsProjection == IsEig /\ MRows(kase.H) <= 4 /\ kase.nu <= 4 =>      
                   LET p == ProjND(Cols(kase.Q, kase.top))
                   IN  IScale(p.den, kase.domNum) = IScale(kase.den, p.num)
 
+\* The call contract of the selectors on their documented domain (0 <= n <= cols, 1 <= k <= min(rows, cols),
+\* n <= N): outcome of the call.  Trace_Subspace validates recorded calls on random matrices against it.
+LrsvOutcome(rows, cols, n) == IF Dev.LrsvWideMatrixIndex /\ cols - n > Min(rows, cols) THEN "raise:IndexError" ELSE "ok"
+PcmOutcome(rows, cols, k)  == IF Dev.PcmWideMatrixShape /\ rows < cols THEN "raise:ValueError" ELSE "ok"
+EigOutcome(N, n)           == IF n > N THEN "raise:ValueError" ELSE "ok"
+WhitenOutcome(rowsA, n)    == ~(Dev.WhitenEigNotOrthogonal /\ n - rowsA >= 2)     \* W^H C W = I for C = A^H A + I
+
 SvdRec(id) ==
     LET sh == ShapeOf(id)  m == sh[1]  nc == sh[2]  r == Min(m, nc)
         s  == Stream(id, 2 * m + 2 * nc + 10)
@@ -418,8 +440,8 @@ SvdRec(id) ==
                  kk == 1 + Pick(s[o + 7], rk)                                         \* 1..rank
                  topk == Prefix(IdxDesc(c, 1..r), kk)
                  Ak == XMul(XMul(Cols(Qu, topk), DiagMat([t \in 1..kk |-> c[topk[t]]])), XHerm(Cols(Qw, topk)))
-                 lrsvAsIs == IF Dev.LrsvWideMatrixIndex /\ nc - n > r THEN "IndexError" ELSE "ok"
-                 pcmAsIs  == IF Dev.PcmWideMatrixShape /\ m < nc THEN "ValueError" ELSE "ok"
+                 lrsvAsIs == LrsvOutcome(m, nc, n)
+                 pcmAsIs  == PcmOutcome(m, nc, kk)
              IN [valid |-> TRUE, kind |-> "svd", id |-> id, A |-> A, n |-> n, k |-> kk, rows |-> m, cols |-> nc,
                  Qu |-> Qu, Qw |-> Qw, c |-> c, nuU |-> nuU, nuW |-> nuW, sg |-> sg,
                  den |-> nuW * nuW, loNum |-> ProjCols(Qw, lo), hiNum |-> ProjCols(Qw, hi), loIdx |-> lo, hiIdx |-> hi,
@@ -467,6 +489,26 @@ FullRank(s, off, m, nc, real) ==
     IN  [A |-> Fix([i \in 1..m |-> [j \in 1..nc |-> IF i <= p /\ j <= p THEN F[i][j] ELSE X[i][j]]]),
          diag2 |-> TLCEval([i \in 1..p |-> GAbs2(dg(i))[1]])]
 
+\* every third gmd case: A = Qu[:, :p] diag(c) Qw[:, :p]^H with weights in 1..3, i.e. REPEATED singular
+\* values c_k nuU nuW (the branch of the algorithm that decides on sigma_k >= sigma_bar sees equalities)
+GmdKnown(id) ==
+    LET sh == ShapeOf(id)  m == sh[1]  nc == sh[2]  p == Min(m, nc)
+        s  == Stream(id, 2 * m + 2 * nc + p + 4)
+        o  == 2 * m + 2 * nc
+        real == Pick(s[o + 1], 3) = 0
+        w0 == GMat(s, 0, m, 1, 1, real)
+        w1 == GMat(s, 2 * m, nc, 1, 1, real)
+        vu == IF Nnz(w0) < Min(2, m) THEN Fix([i \in 1..m |-> <<GOne>>]) ELSE w0
+        vw == IF Nnz(w1) < Min(2, nc) THEN Fix([i \in 1..nc |-> <<GOne>>]) ELSE w1
+        Qu == HouseBasis(vu, SPermOf(s[o + 2], m))
+        Qw == HouseBasis(vw, SPermOf(s[o + 3], nc))
+        c  == [k \in 1..p |-> 1 + Pick(s[o + 3 + k], 3)]
+        js == [k \in 1..p |-> k]
+    IN  [valid |-> TRUE, kind |-> "gmd", id |-> id, p |-> p, gm2p |-> <<>>, diag2 |-> [k \in 1..p |-> 1],
+         A |-> XMul(XMul(Cols(Qu, js), DiagMat(c)), XHerm(Cols(Qw, js))),
+         sv |-> [k \in 1..p |-> c[k] * IntFrob(vu) * IntFrob(vw)],
+         req |-> {"Reconstructs", "UnitaryQ", "UnitaryP", "UpperTriangularR", "ConstantDiagonalGeoMean", "InputsUntouched"}]
+
 GmdRec(id) ==
     LET sh == ShapeOf(id)  m == sh[1]  nc == sh[2]  p == Min(m, nc)
         s  == Stream(id, 2 * m * nc + 1)
@@ -477,15 +519,16 @@ GmdRec(id) ==
         gm == IF m = nc THEN <<ProdInts(fr.diag2)>>
               ELSE IF p <= 3 THEN <<MDet(IF m > nc THEN XMul(XHerm(A), A) ELSE XMul(A, XHerm(A)))[1]>>
               ELSE <<>>
-    IN  [valid |-> TRUE, kind |-> "gmd", id |-> id, A |-> A, p |-> p, gm2p |-> gm, diag2 |-> fr.diag2,
+    IN  [valid |-> TRUE, kind |-> "gmd", id |-> id, A |-> A, p |-> p, gm2p |-> gm, diag2 |-> fr.diag2, sv |-> <<>>,
          req |-> {"Reconstructs", "UnitaryQ", "UnitaryP", "UpperTriangularR", "ConstantDiagonalGeoMean", "InputsUntouched"}]
 Gmd == /\ Kind = "gmd" /\ kase = None
-       /\ \E id \in Lo..Hi : kase' = GmdRec(id)
+       /\ \E id \in Lo..Hi : kase' = IF id % 3 = 2 THEN GmdKnown(id) ELSE GmdRec(id)
 IsGmd == kase.kind = "gmd"
 \* the geometric mean is well defined: all singular values are non-zero
 GmdFullRank == IsGmd => /\ \A i \in 1..kase.p : kase.diag2[i] > 0
                         /\ (kase.gm2p # <<>> => kase.gm2p[1] > 0)
-                        /\ (MRows(kase.A) = MCols(kase.A) /\ kase.p <= 4 =>
+                        /\ \A k \in 1..Len(kase.sv) : kase.sv[k] > 0
+                        /\ (kase.sv = <<>> /\ MRows(kase.A) = MCols(kase.A) /\ kase.p <= 4 =>
                                 GAbs2(MDet(kase.A)) = R(kase.gm2p[1]))
 
 \* leading principal minors (Sylvester) of a Hermitian matrix
@@ -498,7 +541,7 @@ WhitenRec(id) ==
         C  == XAdd(XMul(XHerm(A), A), IDiag(n, 1))
         \* eigenvalue 1 of C has multiplicity n - rank(A) >= n - m
         degenerate == n - m >= 2
-        white == ~(Dev.WhitenEigNotOrthogonal /\ degenerate)
+        white == WhitenOutcome(m, n)
     IN  [valid |-> TRUE, kind |-> "whiten", id |-> id, C |-> C, n |-> n, rowsA |-> m,
          detC |-> IF n <= 4 THEN <<MDet(C)[1]>> ELSE <<>>, degenerate |-> degenerate, white |-> white,
          req |-> {"WhCWIsIdentity", "DetWSquaredTimesDetCIsOne"}]
